@@ -11,14 +11,29 @@ from .. import harness_kwn as H, scen, realdb
 
 LEVEL = "exploration"
 ASSUMPTIONS = [
-    "phase permutation is judged on the deterministic toy binary backend: same number of steps, identical time grid (rtol 1e-9) and per-phase histories (rtol 1e-7, only the order of summation differs)",
+    "phase permutation is judged on the deterministic toy binary backend: same number of steps, identical time grid (rtol 1e-9) and per-phase histories (rtol 1e-7); where that fails, the deviation is compared step by step with 100 x the deviation produced by perturbing the alloy content by 2 ulp in the original order (floating-point sums over phases are not associative and runs near a nucleation burst amplify rounding)",
     "element permutation is judged on the shipped ternary databases with each order evaluated on its own thermodynamics object and caches discarded per query; tolerances: 1e-6 for diffusivities/mobilities/curvature outputs and stoichiometric systems; driving force and nucleus composition on the order/disorder Ni-Cr-Al gamma prime system 5e-2 relative / 0.01 absolute (pycalphad's Newton path depends on the order of the condition dictionary: conditioning, not index mapping)",
 ]
 PH_ATTRS = ["xEqAlpha", "xEqBeta", "drivingForce", "impingement", "Gcrit", "Rcrit", "nucRate", "precipitateDensity", "Rnuc", "Ravg", "ARavg", "volFrac", "fconc"]
 GL_ATTRS = ["time", "temperature", "composition"]
 
 
+def _reldev(a, b):
+    a, b = np.asarray(a, dtype=float), np.asarray(b, dtype=float)
+    with np.errstate(all="ignore"):
+        d = np.abs(a - b) / np.maximum(np.maximum(np.abs(a), np.abs(b)), 1e-300)
+    d = np.where(np.isfinite(d), d, np.where(np.isnan(a) & np.isnan(b), 0.0, np.inf))
+    d = np.where((a == b), 0.0, d)
+    return d.reshape(len(d), -1).max(axis=1) if d.ndim > 1 else d
+
+
 def check_phase_order(case):
+    """Permuting the phase list changes only the order in which per-phase terms are summed.  Floating-point sums are not
+    associative, and a precipitation run amplifies rounding-level differences (measured: a relative change of 2e-16 of the
+    alloy content grows to 1e-8 after 110 steps and to 10 % after 200 in a run near a nucleation burst).  The permuted run is
+    therefore judged step by step against an envelope obtained from a third run of the original order whose alloy content
+    is perturbed by two units in the last place: deviations up to 1e-9 + 100 x that run's (running maximum) deviation are
+    rounding, anything larger is an effect of the order."""
     out = Out()
     sc = case["sc"]
     perm = case["perm"]
@@ -34,27 +49,53 @@ def check_phase_order(case):
     p1, p2 = r1["model"].pData, r2["model"].pData
     n1, n2 = len(p1.time), len(p2.time)
     out.label("phases_%d" % len(perm), sc["iterator"])
-    if n1 != n2:
-        k = min(n1, n2)
-        d = np.where(np.asarray(p1.time[:k]) != np.asarray(p2.time[:k]))[0]
-        out.fail("phase_order_changes_time_grid", "listing the phases as %r instead of %r changes the run: %d vs %d steps, time grids first differ at step %s" % ([sc["phases"][i]["name"] for i in perm], [p["name"] for p in sc["phases"]], n1, n2, int(d[0]) if len(d) else k))
-        return out
-    t1, t2 = np.asarray(p1.time), np.asarray(p2.time)
-    if not np.allclose(t1, t2, rtol=1e-9, atol=0):
-        i = int(np.argmax(np.abs(t1 - t2) > 1e-9 * np.abs(t1)))
-        out.fail("phase_order_changes_time_grid", "phase order %r vs %r: time grids differ from step %d (%r vs %r; ratio of step sizes %.3g)" % (perm, list(range(len(perm))), i, t1[i], t2[i], (t2[i] - t2[i - 1]) / (t1[i] - t1[i - 1]) if i > 0 and t1[i] != t1[i - 1] else float("nan")))
-        return out
+    if any(p.get("elastic") for p in sc["phases"]):
+        out.label("aspect_ratio_from_strain_energy")
+    k = min(n1, n2)
+    series = [("time", np.asarray(p1.time)[:k], np.asarray(p2.time)[:k], None)]
     for a in GL_ATTRS[1:]:
-        x, y = np.asarray(getattr(p1, a)), np.asarray(getattr(p2, a))
-        if not np.allclose(x, y, rtol=1e-7, atol=1e-300, equal_nan=True):
-            out.fail("phase_order_changes_history", "phase order changes %s" % a, attr=a)
-            return out
+        series.append((a, np.asarray(getattr(p1, a))[:k], np.asarray(getattr(p2, a))[:k], None))
     for a in PH_ATTRS:
-        x, y = np.asarray(getattr(p1, a)), np.asarray(getattr(p2, a))
-        xp = x[:, perm]
-        if not np.allclose(xp, y, rtol=1e-7, atol=1e-300, equal_nan=True):
-            idx = np.argwhere(~np.isclose(xp, y, rtol=1e-7, atol=1e-300, equal_nan=True))[0]
-            out.fail("phase_order_changes_history", "per-phase history %s is not merely permuted: step %d, %r vs %r" % (a, idx[0], xp[tuple(idx)], y[tuple(idx)]), attr=a)
+        series.append((a, np.asarray(getattr(p1, a))[:k][:, perm], np.asarray(getattr(p2, a))[:k], perm))
+    devs = {name: _reldev(x, y) for name, x, y, _ in series}
+    strict_ok = n1 == n2 and devs["time"].max() <= 1e-9 and all(devs[n].max() <= 1e-7 for n in devs if n != "time")
+    if not strict_ok:
+        # calibrate: how far does a rounding-level perturbation carry this run?
+        sc3 = dict(sc)
+        sc3["x0"] = float(np.nextafter(np.nextafter(sc["x0"], np.inf), np.inf)) if not isinstance(sc["x0"], list) else [float(np.nextafter(np.nextafter(v, np.inf), np.inf)) for v in sc["x0"]]
+        sys.stdout = io.StringIO()
+        try:
+            r3 = H.run(sc3)
+        finally:
+            sys.stdout = so
+        p3 = r3["model"].pData
+        k3 = min(k, len(p3.time))
+        noise = np.zeros(k)
+        for a in ["time"] + GL_ATTRS[1:] + PH_ATTRS:
+            dn = _reldev(np.asarray(getattr(p1, a))[:k3], np.asarray(getattr(p3, a))[:k3])
+            noise[:k3] = np.maximum(noise[:k3], dn)
+        noise[k3:] = np.inf
+        envelope = np.maximum.accumulate(noise)
+        allowed_t = 1e-9 + 100 * envelope
+        allowed_h = 1e-7 + 100 * envelope
+        worst = None
+        for name in devs:
+            allowed = allowed_t if name == "time" else allowed_h
+            bad = np.where(devs[name] > allowed)[0]
+            if len(bad) and (worst is None or bad[0] < worst[1]):
+                worst = (name, int(bad[0]))
+        judged_all = bool(np.all(envelope[:k] < 1e-3))
+        if worst is None and (n1 == n2 or not judged_all):
+            out.label("within_rounding_sensitivity")
+        elif worst is None:
+            out.fail("phase_order_changes_time_grid", "listing the phases as %r instead of %r changes the number of steps (%d vs %d) although a rounding-level perturbation of the alloy content changes no history by more than %.1e"
+                     % ([sc["phases"][i]["name"] for i in perm], [p["name"] for p in sc["phases"]], n1, n2, float(envelope[:k].max())))
+            return out
+        else:
+            name, i = worst
+            kind = "phase_order_changes_time_grid" if name == "time" else "phase_order_changes_history"
+            out.fail(kind, "phase order %r vs %r: %s differs from step %d by %.3e (relative); a perturbation of the alloy content by 2 ulp changes the histories by at most %.3e up to that step (steps: %d vs %d)"
+                     % (perm, list(range(len(perm))), name, i, float(devs[name][i]), float(envelope[i]), n1, n2), attr=name)
             return out
     vf = np.asarray(p1.volFrac)
     active = int(np.sum(np.any(vf > 0, axis=0)))
@@ -66,9 +107,9 @@ def check_phase_order(case):
 
 @st.composite
 def _phase_case(draw):
-    sc = draw(scen.toy_binary_scenario(cap=200, max_phases=3, undersat=False))
+    sc = draw(scen.toy_binary_scenario(cap=200, max_phases=3, undersat=False, allow_elastic=True))
     while len(sc["phases"]) < 2:
-        sc = draw(scen.toy_binary_scenario(cap=200, max_phases=3, undersat=False))
+        sc = draw(scen.toy_binary_scenario(cap=200, max_phases=3, undersat=False, allow_elastic=True))
     n = len(sc["phases"])
     perms = [list(p) for p in itertools.permutations(range(n))][1:]
     return {"sc": sc, "perm": draw(st.sampled_from(perms))}
@@ -77,7 +118,7 @@ def _phase_case(draw):
 def clauses():
     cl = [
         Clause("phase_order", _phase_case, check_phase_order, quick=90, thorough=2000, shrink=False,
-               rule="generator: toy binary scenario with 2-3 precipitate phases (different solvus, energies, sites, shapes, volumes) and a non-identity permutation of the phase list (per-phase parameters move with the phase); both orders run under the same cap; "
+               rule="generator: toy binary scenario with 2-3 precipitate phases (different solvus, energies, sites, shapes, volumes; needle/plate phases may take their aspect ratio from an elastic strain energy, calculateAspectRatio=True) and a non-identity permutation of the phase list (per-phase parameters move with the phase); both orders run under the same cap; "
                     "oracle: same number of steps, same time grid, global histories equal and per-phase histories equal after applying the permutation; non-trivial: at least two phases hold particles"),
     ]
     try:
